@@ -323,6 +323,52 @@ fn live_body_x(senders: usize, per: usize, closer: Closer, self_send: bool, wron
     })
 }
 
+/// cluster build: a cell with a remote id (what a session creates for a peer's actor) only takes messages that
+/// can be serialized; anything else is refused with InvalidActorType, nothing is queued, and serializable
+/// messages sent before and after it are queued in order
+#[cfg(feature = "alt")]
+fn remote_cell_body() -> vsched::Body {
+    struct NotSerializable(#[allow(dead_code)] u32);
+    impl ractor::Message for NotSerializable {}
+    Arc::new(move || {
+        Box::pin(async move {
+            let (cell, mut ports) = inspect::detached_remote::<Dummy>(ractor::ActorId::Remote { node_id: 3, pid: 77 }).expect("remote cell");
+            inspect::set_status(&cell, ActorStatus::Running);
+            let mut bad = Vec::new();
+            let r1 = cell.send_message::<u32>(1);
+            let r2 = cell.send_message::<NotSerializable>(NotSerializable(2));
+            let typed: ActorRef<NotSerializable> = cell.clone().into();
+            let r3 = typed.cast(NotSerializable(3));
+            let r4 = cell.send_message::<u32>(4);
+            if r1.is_err() || r4.is_err() {
+                bad.push(format!("serializable messages to a remote-id cell were refused: {:?} {:?}", r1.is_ok(), r4.is_ok()));
+            }
+            if !matches!(r2, Err(MessagingErr::InvalidActorType)) || !matches!(r3, Err(MessagingErr::InvalidActorType)) {
+                bad.push(format!("a message that cannot be serialized was not refused with InvalidActorType by a remote-id cell (send_message ok={}, cast ok={})", r2.is_ok(), r3.is_ok()));
+            }
+            let mut queued = 0usize;
+            let mut local_boxes = 0usize;
+            while let Some(m) = ports.try_recv_message() {
+                if let Mail::Message(b) = m {
+                    queued += 1;
+                    if b.serialized_msg.is_none() {
+                        local_boxes += 1;
+                    }
+                }
+            }
+            if queued != 2 || local_boxes != 0 {
+                bad.push(format!("the remote-id cell's mailbox holds {queued} messages ({local_boxes} of them not serialized), expected the 2 serializable ones"));
+            }
+            inspect::set_status(&cell, ActorStatus::Stopped);
+            Outcome { key: format!("queued={queued}"), violations: bad }
+        })
+    })
+}
+#[cfg(not(feature = "alt"))]
+fn remote_cell_body() -> vsched::Body {
+    crate::common::wrong_build()
+}
+
 const S_KINDS: &[PointKind] = &[PointKind::Atomic, PointKind::Channel, PointKind::Lock, PointKind::Other];
 
 pub fn plan(tier: &str) -> Plan {
@@ -378,6 +424,7 @@ pub fn plan(tier: &str) -> Plan {
         ));
     }
     units.push(Unit::explore_split(Job::new("live/thread-local/2x2/Stop", live_cfg.clone(), Some(lb), live_body_x(2, 2, Closer::Stop, false, false, true, false)), 4));
+    units.push(crate::common::alt_unit("alt/remote-id-cell/unserializable-refused".into(), ExecCfg::default(), Some(0), remote_cell_body(), 1));
     // task granularity: the same with no preemption inside the send path
     let t_cfg = ExecCfg::default();
     units.push(Unit::explore(Job::new("task/2x2+selfsend/Stop", t_cfg.clone(), Some(lb + 1), live_body(2, 2, Closer::Stop, true, true))));
